@@ -1,7 +1,8 @@
 (** Property C08 -- Length- and close-delimited response bodies arrive verbatim, never over-read.
     Statements only; proofs are in proofs/C08_proofs.v. *)
-From Hoot Require Import Base Chunk Body Parser Request Call Flow.
-From Hoot.proofs Require Import C08_proofs.
+From Coq Require Import Lia.
+From Hoot Require Import Base Chunk Body Parser Url Request Call Flow Script.
+From Hoot.proofs Require Import C06_proofs C06_spec C06_more C08_proofs C08_flowrun C08_head.
 Open Scope N_scope.
 
 (** One read with Content-Length: moves min(input, output space, remaining) bytes, verbatim. *)
@@ -68,6 +69,219 @@ Example c08_nonvacuous :
   r_consumed t = 3 /\ r_delivered t = [97; 98; 99] /\ c_reader (r_call t) = Some (RLength 0).
 Proof. vm_compute. auto. Qed.
 
+(* ====================================================================================== *)
+(** * Strengthening after review 2: the observation points ([Flow<RecvBody>::read], [can_proceed],
+    [proceed]) over whole schedules
+
+    [frun stream t sched] (proofs/C08_flowrun.v) runs a schedule of items (k, cap, stop) through the
+    flow: set stop-on-chunk-boundary to [stop], then read with the first [k] unconsumed stream bytes as
+    input and [cap] bytes of output space.  The run FAILS as soon as one read fails, so "= Ok t" below
+    says that no read of the schedule fails (this excludes the "reader that always errs" reading of the
+    totalised [rrun] above).  [same_shell f f']: holder, close reasons, status, location unchanged. *)
+
+(** Content-Length N, any schedule, any stream (body followed by anything): no read fails; the
+    reader counts down from N; never more than N is consumed; what was delivered is exactly the
+    consumed prefix of the stream; and the body is complete -- [can_proceed] answers true -- exactly
+    when N bytes were consumed, equivalently delivered. *)
+Theorem c08_len_complete_run : forall stream total f sched,
+  i_holder f = HRecvBody -> c_reader (i_call f) = Some (RLength total) ->
+  exists t,
+    frun stream (fstart f) sched = Ok t /\
+    i_holder (ft_flow t) = HRecvBody /\
+    c_reader (i_call (ft_flow t)) = Some (RLength (total - ft_consumed t)) /\
+    ft_consumed t <= total /\
+    ft_out t = take (ft_consumed t) stream /\ len (ft_out t) = ft_consumed t /\
+    recv_body_can_proceed (ft_flow t) = Ok (ft_consumed t =? total) /\
+    (recv_body_can_proceed (ft_flow t) = Ok true <-> ft_consumed t = total) /\
+    (recv_body_can_proceed (ft_flow t) = Ok true <-> len (ft_out t) = total) /\
+    same_shell f (ft_flow t).
+Proof. exact len_complete_run. Qed.
+
+(** Close-delimited, any schedule: no read fails; every delivered byte is the next stream byte; the
+    flow may proceed after every read (and [proceed] then leaves the body state); the close reasons,
+    hence [must_close], are not touched by reading. *)
+Theorem c08_close_run : forall stream f sched,
+  i_holder f = HRecvBody -> c_reader (i_call f) = Some RClose ->
+  exists t,
+    frun stream (fstart f) sched = Ok t /\
+    i_holder (ft_flow t) = HRecvBody /\ c_reader (i_call (ft_flow t)) = Some RClose /\
+    ft_out t = take (ft_consumed t) stream /\ len (ft_out t) = ft_consumed t /\
+    recv_body_can_proceed (ft_flow t) = Ok true /\
+    recv_body_proceed (ft_flow t) = Ok (Some (if is_redirect f then TRedirect else TCleanup, ft_flow t)) /\
+    same_shell f (ft_flow t) /\ must_close (ft_flow t) = must_close f.
+Proof. exact close_run. Qed.
+
+(** "The connection is always marked for closing", from the head to the end: entering the body state
+    with a close-delimited reader records the reason, and after any reads, and in the flow handed to
+    the Redirect / Cleanup state, [must_close] still holds. *)
+Theorem c08_close_mustclose_persists : forall f,
+  i_holder f = HRecvResponse -> c_reader (i_call f) = Some RClose -> NoDup (i_reasons f) ->
+  exists f1,
+    recv_response_proceed f = Ok (Some (TRecvBody, f1)) /\
+    forall stream sched,
+      exists t tg,
+        frun stream (fstart f1) sched = Ok t /\
+        In CloseDelimitedBody (i_reasons (ft_flow t)) /\ must_close (ft_flow t) = true /\
+        recv_body_proceed (ft_flow t) = Ok (Some (tg, ft_flow t)) /\ (tg = TRedirect \/ tg = TCleanup).
+Proof. exact close_mustclose_persists. Qed.
+
+(** A single read on a length-delimited, close-delimited or absent body never fails, on any input. *)
+Theorem c08_read_never_fails : forall f r win cap,
+  i_holder f = HRecvBody -> c_reader (i_call f) = Some r ->
+  (forall d, r <> RChunked d) ->
+  exists f' i o, recv_body_read f win cap = Ok (f', i, o) /\ same_shell f f'.
+Proof. exact read_never_fails. Qed.
+
+(** ** "A response with Content-Length N" / "a close-delimited response": from the head to the reads
+
+    [framing] is the body-framing rule of C06 written from the statement (proofs/C06_spec.v);
+    since the repair of the C06 redirect finding the code follows it without exception.  The
+    hypotheses speak about the response [rsp] that [try_response] actually returned. *)
+
+(** The body state is entered with the reader the rule prescribes for the parsed head. *)
+Theorem c08_from_head : forall f input f' used rsp r,
+  i_holder f = HRecvResponse -> NoDup (i_reasons f) ->
+  recv_try_response f input = Ok (f', used, Some rsp) -> rs_status rsp <> 100 ->
+  let hd := method_eqb (am_method (c_req (i_call f))) HEAD in
+  let cn := method_eqb (am_method (c_req (i_call f))) CONNECT in
+  let v11 := negb (rs_version rsp =? 0) in
+  let cl := lookup_text (rs_headers rsp) (s2b "content-length") in
+  let te := lookup_text (rs_headers rsp) (s2b "transfer-encoding") in
+  framing hd cn (rs_status rsp) v11 cl te (Ok r) ->
+  exists f'',
+    recv_response_proceed f' = Ok (Some (successor r (rs_status rsp), f'')) /\
+    c_reader (i_call f'') = Some r /\ i_holder f'' = HRecvBody /\ NoDup (i_reasons f') /\
+    c_reader (i_call f') = Some r /\ i_holder f' = HRecvResponse.
+Proof. exact from_head. Qed.
+
+(** Content-Length N > 0, end to end: after the head the flow enters the body state, and over any
+    schedule on any stream no read fails, at most N bytes are consumed, the delivered bytes are the
+    consumed prefix, the flow may proceed exactly when N were consumed, and reading does not change
+    whether the connection must be closed. *)
+Theorem c08_length_end_to_end : forall f input f' used rsp n,
+  i_holder f = HRecvResponse -> NoDup (i_reasons f) ->
+  recv_try_response f input = Ok (f', used, Some rsp) -> rs_status rsp <> 100 ->
+  let hd := method_eqb (am_method (c_req (i_call f))) HEAD in
+  let cn := method_eqb (am_method (c_req (i_call f))) CONNECT in
+  let v11 := negb (rs_version rsp =? 0) in
+  let cl := lookup_text (rs_headers rsp) (s2b "content-length") in
+  let te := lookup_text (rs_headers rsp) (s2b "transfer-encoding") in
+  framing hd cn (rs_status rsp) v11 cl te (Ok (RLength n)) -> n <> 0 ->
+  exists f'',
+    recv_response_proceed f' = Ok (Some (TRecvBody, f'')) /\
+    forall stream sched,
+      exists t,
+        frun stream (fstart f'') sched = Ok t /\
+        ft_consumed t <= n /\ ft_out t = take (ft_consumed t) stream /\ len (ft_out t) = ft_consumed t /\
+        (recv_body_can_proceed (ft_flow t) = Ok true <-> ft_consumed t = n) /\
+        must_close (ft_flow t) = must_close f'.
+Proof. exact length_end_to_end. Qed.
+
+(** Close-delimited, end to end: the body state is entered with the connection marked for closing;
+    over any schedule no read fails, what is consumed is delivered unchanged, the flow may proceed
+    after every read, and the mark and its reason stay. *)
+Theorem c08_close_end_to_end : forall f input f' used rsp,
+  i_holder f = HRecvResponse -> NoDup (i_reasons f) ->
+  recv_try_response f input = Ok (f', used, Some rsp) -> rs_status rsp <> 100 ->
+  let hd := method_eqb (am_method (c_req (i_call f))) HEAD in
+  let cn := method_eqb (am_method (c_req (i_call f))) CONNECT in
+  let v11 := negb (rs_version rsp =? 0) in
+  let cl := lookup_text (rs_headers rsp) (s2b "content-length") in
+  let te := lookup_text (rs_headers rsp) (s2b "transfer-encoding") in
+  framing hd cn (rs_status rsp) v11 cl te (Ok RClose) ->
+  exists f'',
+    recv_response_proceed f' = Ok (Some (TRecvBody, f'')) /\ must_close f'' = true /\
+    forall stream sched,
+      exists t,
+        frun stream (fstart f'') sched = Ok t /\
+        ft_out t = take (ft_consumed t) stream /\ len (ft_out t) = ft_consumed t /\
+        recv_body_can_proceed (ft_flow t) = Ok true /\ must_close (ft_flow t) = true /\
+        In CloseDelimitedBody (i_reasons (ft_flow t)).
+Proof. exact close_end_to_end. Qed.
+
+(** ** Non-vacuity on flows produced by RUNNING the model (GET http://a.test/x, head written, the
+    response head parsed from a stream in which the body and the start of a next response follow) *)
+
+Definition ex_uri : uri := {| u_scheme := s2b "http"; u_auth := s2b "a.test"; u_pq := s2b "/x" |}.
+Definition ex_get : request := {| rq_method := GET; rq_version := V11; rq_uri := ex_uri; rq_headers := [] |}.
+Definition after_bytes : bytes := s2b "abcHTTP/1.1 200".
+Definition to_head (resp : bytes) : list op :=
+  [ONew ex_get; OProceed; OWriteHead 1000; OProceed; OSetStream (resp ++ after_bytes); OArrive 1000; OTryResponse].
+Definition to_body (resp : bytes) : list op := to_head resp ++ [OProceed].
+Definition flow_at (ops : list op) : option (tag * inner) :=
+  match s_obj (run_ops s_init ops) with ObFlow t f => Some (t, f) | _ => None end.
+
+Definition resp_len3 : bytes := s2b "HTTP/1.1 200 OK" ++ CRLF ++ s2b "content-length: 3" ++ CRLF ++ CRLF.
+Definition resp_close : bytes := s2b "HTTP/1.1 200 OK" ++ CRLF ++ s2b "server: x" ++ CRLF ++ CRLF.
+
+(** Content-Length 3: after a 2-byte read the flow may not proceed; after the third byte it may, the
+    bytes of the next response are untouched, and the connection is not marked for closing. *)
+Example c08_len_run_nonvacuous :
+  exists f, flow_at (to_body resp_len3) = Some (TRecvBody, f) /\
+    i_holder f = HRecvBody /\ c_reader (i_call f) = Some (RLength 3) /\
+    (exists t, frun after_bytes (fstart f) [(100, 2, false)] = Ok t /\
+               ft_consumed t = 2 /\ ft_out t = s2b "ab" /\ recv_body_can_proceed (ft_flow t) = Ok false) /\
+    (exists t, frun after_bytes (fstart f) [(100, 2, false); (100, 100, true); (100, 100, false)] = Ok t /\
+               ft_consumed t = 3 /\ ft_out t = s2b "abc" /\ recv_body_can_proceed (ft_flow t) = Ok true /\
+               recv_body_proceed (ft_flow t) = Ok (Some (TCleanup, ft_flow t)) /\ must_close (ft_flow t) = false).
+Proof.
+  eexists. split; [vm_compute; reflexivity|]. split; [vm_compute; reflexivity|]. split; [vm_compute; reflexivity|].
+  split; eexists; (split; [vm_compute; reflexivity|]); repeat split; vm_compute; reflexivity.
+Qed.
+
+(** No framing header on a 200: the state reached by the model satisfies the hypotheses of
+    [c08_close_mustclose(_persists)]; the body state is entered with [must_close]; reads pass
+    everything offered through (here also the bytes that look like a next response: until the
+    connection closes they ARE body); the flow may proceed at any point, to Cleanup, still marked, with
+    the close-delimited reason reported. *)
+Example c08_close_nonvacuous :
+  exists f0 f, flow_at (to_head resp_close) = Some (TRecvResponse, f0) /\
+    i_holder f0 = HRecvResponse /\ c_reader (i_call f0) = Some RClose /\ i_reasons f0 = [] /\
+    recv_response_proceed f0 = Ok (Some (TRecvBody, f)) /\
+    flow_at (to_body resp_close) = Some (TRecvBody, f) /\
+    i_holder f = HRecvBody /\ c_reader (i_call f) = Some RClose /\ must_close f = true /\
+    recv_body_can_proceed f = Ok true /\
+    exists t, frun after_bytes (fstart f) [(3, 2, false); (100, 100, true); (100, 5, false)] = Ok t /\
+              ft_consumed t = len after_bytes /\ ft_out t = after_bytes /\
+              recv_body_can_proceed (ft_flow t) = Ok true /\
+              recv_body_proceed (ft_flow t) = Ok (Some (TCleanup, ft_flow t)) /\
+              must_close (ft_flow t) = true /\
+              close_reason (ft_flow t) = Some (s2b "response body is close delimited").
+Proof.
+  do 2 eexists. split; [vm_compute; reflexivity|]. split; [vm_compute; reflexivity|].
+  split; [vm_compute; reflexivity|]. split; [vm_compute; reflexivity|]. split; [vm_compute; reflexivity|].
+  split; [vm_compute; reflexivity|]. split; [vm_compute; reflexivity|]. split; [vm_compute; reflexivity|].
+  split; [vm_compute; reflexivity|]. split; [vm_compute; reflexivity|].
+  eexists. split; [vm_compute; reflexivity|]. repeat split; vm_compute; reflexivity.
+Qed.
+
+(** The hypotheses of the end-to-end theorems on the model's flow in RecvResponse: the head with
+    "content-length: 3" is prescribed [RLength 3] by the rule, the head without framing header
+    [RClose]. *)
+Example c08_end_to_end_nonvacuous :
+  exists f, flow_at [ONew ex_get; OProceed; OWriteHead 1000; OProceed] = Some (TRecvResponse, f) /\
+    i_holder f = HRecvResponse /\ i_reasons f = [] /\
+    (exists f' rsp,
+       recv_try_response f (resp_len3 ++ after_bytes) = Ok (f', len resp_len3, Some rsp) /\ rs_status rsp = 200 /\
+       framing (method_eqb (am_method (c_req (i_call f))) HEAD) (method_eqb (am_method (c_req (i_call f))) CONNECT)
+               (rs_status rsp) (negb (rs_version rsp =? 0))
+               (lookup_text (rs_headers rsp) (s2b "content-length"))
+               (lookup_text (rs_headers rsp) (s2b "transfer-encoding")) (Ok (RLength 3))) /\
+    (exists f' rsp,
+       recv_try_response f (resp_close ++ after_bytes) = Ok (f', len resp_close, Some rsp) /\ rs_status rsp = 200 /\
+       framing (method_eqb (am_method (c_req (i_call f))) HEAD) (method_eqb (am_method (c_req (i_call f))) CONNECT)
+               (rs_status rsp) (negb (rs_version rsp =? 0))
+               (lookup_text (rs_headers rsp) (s2b "content-length"))
+               (lookup_text (rs_headers rsp) (s2b "transfer-encoding")) (Ok RClose)).
+Proof.
+  eexists. split; [vm_compute; reflexivity|]. split; [vm_compute; reflexivity|]. split; [vm_compute; reflexivity|].
+  split.
+  - do 2 eexists. split; [vm_compute; reflexivity|]. split; [vm_compute; reflexivity|].
+    apply framing_model; [apply lookup_text_plain|vm_compute; reflexivity].
+  - do 2 eexists. split; [vm_compute; reflexivity|]. split; [vm_compute; reflexivity|].
+    apply framing_model; [apply lookup_text_plain|vm_compute; reflexivity].
+Qed.
+
 Print Assumptions c08_len_step.
 Print Assumptions c08_len_invariant.
 Print Assumptions c08_len_complete.
@@ -76,3 +290,13 @@ Print Assumptions c08_close_invariant.
 Print Assumptions c08_close_proceed.
 Print Assumptions c08_close_mustclose.
 Print Assumptions c08_nonvacuous.
+Print Assumptions c08_len_complete_run.
+Print Assumptions c08_close_run.
+Print Assumptions c08_close_mustclose_persists.
+Print Assumptions c08_read_never_fails.
+Print Assumptions c08_len_run_nonvacuous.
+Print Assumptions c08_close_nonvacuous.
+Print Assumptions c08_from_head.
+Print Assumptions c08_length_end_to_end.
+Print Assumptions c08_close_end_to_end.
+Print Assumptions c08_end_to_end_nonvacuous.
